@@ -246,4 +246,12 @@ theorem bcIdx_inShape_right {a b bs β : List Nat} (hp : Pos b) (h : broadcastSh
 theorem bcIdx_inShape_left' {a b bs β : List Nat} (hp : Pos a) (h : broadcastShape a b = some bs) (hβ : InShape β bs) :
     InShape (bcIdx β a) a := bcIdx_inShape_left a.length a b bs β rfl hp h hβ
 
+theorem mapM_range_some {α : Type} (n : Nat) (f : Nat → Option α) (g : Nat → α) (h : ∀ i, i < n → f i = some (g i)) :
+    (List.range n).mapM f = some ((List.range n).map g) := by
+  induction n with
+  | zero => simp
+  | succ n ih =>
+    rw [List.range_succ, List.mapM_append, ih (fun i hi => h i (by omega))]
+    simp [h n (by omega)]
+
 end NmVerif
